@@ -12,7 +12,7 @@ from ..harness import (World, consume_with_timeout, dropped_consume_results, exe
 
 LEVEL = "exploration"
 PLAN = {
-    "quick": {"mem": 700, "redis": 500, "rabbit": 400},
+    "quick": {"mem": 1200, "redis": 900, "rabbit": 700},
     "thorough": {"mem": 25000, "redis": 20000, "rabbit": 12000},
 }
 BUDGET = {"quick": 50, "thorough": 900}
